@@ -34,30 +34,79 @@ func c08AcceptIsLimiterAnswer(c *eng.Ctx) {
 		}
 		return eng.TypeName(eng.Receiver(cc).Type()) == tGlobalFC || eng.RecvTypeName(cc) == tGlobalFC
 	}
-	sl := c.Slicer()
+	isAnswer := func(v ssa.Value) bool { return isLimiterCall(v, "SetState", 0) || isLimiterCall(v, "TryAcquireN", -1) }
+	// okAt: value v, used at instruction `at`, is the limiter's own answer
+	var okAt func(v ssa.Value, at ssa.Instruction, depth int) bool
+	okAt = func(v ssa.Value, at ssa.Instruction, depth int) bool {
+		if depth < 0 || v == nil {
+			return false
+		}
+		switch x := v.(type) {
+		case *ssa.Const:
+			if eng.IsBoolConst(x, false) {
+				return true
+			}
+			if eng.IsBoolConst(x, true) {
+				return at != nil && eng.GuardedByBool(at, isAnswer, true)
+			}
+			return false
+		case *ssa.Phi:
+			for i, e := range x.Edges {
+				pred := x.Block().Preds[i]
+				if !okAt(e, pred.Instrs[len(pred.Instrs)-1], depth-1) {
+					return false
+				}
+			}
+			return true
+		case *ssa.UnOp:
+			// a local cell (e.g. a captured result variable): every store into it
+			if al, ok := x.X.(*ssa.Alloc); ok && al.Referrers() != nil {
+				n := 0
+				for _, r := range *al.Referrers() {
+					if st, isSt := r.(*ssa.Store); isSt && st.Addr == ssa.Value(al) {
+						n++
+						if !okAt(st.Val, st, depth-1) {
+							return false
+						}
+					}
+				}
+				return n > 0
+			}
+		}
+		if isAnswer(v) {
+			return true
+		}
+		// a result of a same-package helper: every return of the helper hands on an answer
+		if cc, idx := eng.CallResultOf(v); cc != nil {
+			if callee := cc.Call.StaticCallee(); callee != nil && callee.Pkg == da.Pkg && callee.Blocks != nil {
+				if idx < 0 {
+					idx = 0
+				}
+				n := 0
+				for _, b := range callee.Blocks {
+					ret, isRet := b.Instrs[len(b.Instrs)-1].(*ssa.Return)
+					if !isRet || b == callee.Recover {
+						continue
+					}
+					rs := eng.ReturnResults(ret)
+					if idx >= len(rs) {
+						return false
+					}
+					n++
+					if !okAt(rs[idx], ret, depth-1) {
+						return false
+					}
+				}
+				return n > 0
+			}
+		}
+		return false
+	}
 	n := 0
 	for _, fn := range c.W.Region(da) {
 		for _, st := range eng.StoresToField([]*ssa.Function{fn}, tRes, "Accept") {
 			n++
-			ok := false
-			switch {
-			case eng.IsBoolConst(st.Val, false):
-				ok = true
-			case eng.IsBoolConst(st.Val, true):
-				ok = eng.GuardedByBool(st, func(v ssa.Value) bool { return isLimiterCall(v, "SetState", 0) || isLimiterCall(v, "TryAcquireN", -1) }, true)
-			default:
-				// a computed value: every origin is a TryAcquireN result, a SetState accept result or false
-				ls := sl.Leaves(st.Val, func(v ssa.Value) bool {
-					return isLimiterCall(v, "TryAcquireN", -1) || isLimiterCall(v, "SetState", 0)
-				})
-				ok = len(ls) > 0
-				for _, l := range ls {
-					if !(isLimiterCall(l, "TryAcquireN", -1) || isLimiterCall(l, "SetState", 0) || eng.IsBoolConst(l, false)) {
-						ok = false
-					}
-				}
-			}
-			c.Check("R7", da, fmt.Sprintf("Accept store#%d is the limiter's answer", n), st.Pos(), ok,
+			c.Check("R7", da, fmt.Sprintf("Accept store#%d is the limiter's answer", n), st.Pos(), okAt(st.Val, st, 4),
 				"Accept is set without the limiter having been asked: the report or ask on that path never reaches the accounting (a zero in-flight report is not applied, tokens are granted that were never taken)")
 		}
 	}
